@@ -44,7 +44,7 @@ TraceInit ==
   /\ base = [t \in 1..MaxT |-> NoBase]
 
 MutOps   == {"Insert", "Delete"}
-QueryOps == {"Search", "All", "Backward", "Min", "Max", "TopK", "BottomK", "Range",
+QueryOps == {"Search", "All", "Backward", "Min", "Max", "TopK", "BottomK", "Range", "RangeC",
              "Prefix", "Iter", "Dump", "Size"}
 EnvOps   == {"GC", "Scribble", "Arena", "Checkpoint", "Note"}
 KnownOps == MutOps \cup QueryOps \cup EnvOps \cup {"new", "clear", "reset", "Batch", "Pre"}
@@ -233,6 +233,15 @@ FullKeys(e) ==
     [] e.seq = "Prefix"   -> PrefixKeys(M, OTab, e.p)
 (* "RangeAny": Range of a tree kind for which C03 gives the content no meaning (collation): the protocol still *)
 (* applies - the LAST pass is complete, every pass is the prefix of it that its stop position asks for.        *)
+(* the results a property promises hold for EVERY pass over a sequence value, not only the first one *)
+PassesOK(e, seqs) ==
+  (Good(e) /\ e.op = "Iter" /\ e.seq \in seqs) =>
+     \A i \in 1..Len(e.stops) : e.passes[i] = Pass(FullKeys(e), e.stops[i]) /\ e.pvals[i] = ValsOf(M, e.passes[i])
+Inv_C02P == Each(LAMBDA e : PassesOK(e, {"All", "Backward"}))
+Inv_C03P == Each(LAMBDA e : (KD # "collation") => PassesOK(e, {"Range"}))
+Inv_C04P == Each(LAMBDA e : PassesOK(e, {"Prefix"}))
+Inv_C05P == Each(LAMBDA e : PassesOK(e, {"TopK", "BottomK"}))
+
 C14(e) ==
   /\ NoPanic(e, {"Iter"})
   /\ (Good(e) /\ e.op = "Iter") =>
